@@ -156,6 +156,7 @@ def run(ctx):
         if i < 3:
             cov.sample({"family": name, "spec": fam.spec, "query_rows": idx, "pred": p.tolist()})
     negative_activations(ctx)
+    tiny_covariance(ctx)
     e2e.base_histories(ctx, "C08", ctx.scale(150, 3000), ctx.scale(20, 80), fields=("labels",))
     e2e.smap_histories(ctx, "C08", ctx.scale(100, 2000), ctx.scale(16, 60))
 
@@ -214,3 +215,46 @@ def negative_activations(ctx):
             cov.case(("neg", spec, rep["X"], rep["query"]), allneg > 0 and len(owner.W) >= 2)
         except Exception as e:
             ctx.issue("violation", f"{host}({'+'.join(chans)}).fit-or-predict:{exc_enum(e)}", repr(e), rep)
+
+
+def tiny_covariance(ctx):
+    """BayesianART categories whose covariance determinant is below machine epsilon (tight clusters in moderate
+    dimension), bare and as A-side of SimpleARTMAP: predict leaves every stored weight bit-identical, is repeatable,
+    and gives identical rows the same label"""
+    from .. import specs
+    from ..impl import make
+    cov = ctx.cov
+    for i in range(ctx.scale(16, 200)):
+        r = gen.rng_for(ctx.seed, "C08-tinycov", i)
+        d = r.randint(3, 7)
+        sp = {"cls": "BayesianART", "rho": 2.0, "cov_init": (np.eye(d) * r.choice([2.0 ** -18, 2.0 ** -12, 1e-3])).tolist()}
+        host = ["bare", "SimpleARTMAP"][i % 2]
+        spec = sp if host == "bare" else {"cls": "SimpleARTMAP", "module_a": sp}
+        n = r.randint(4, 10)
+        X = specs.elem_data(r, "BayesianART", n, d)
+        Q = np.vstack([X[[r.randrange(n) for _ in range(4)]], np.repeat(X[:1], 6, axis=0)])
+        rep = {"spec": spec, "X": X.tolist(), "query": Q.tolist()}
+        try:
+            est = make(spec)
+            with quiet():
+                if host == "bare":
+                    est.fit(X)
+                else:
+                    est.fit(X, gen.labels(r, n, 2))
+            owner = est if host == "bare" else est.module_a
+            W0 = [np.array(w, dtype=float).copy() for w in owner.W]
+            with quiet():
+                p1 = np.asarray(est.predict(Q))
+                W1 = [np.array(w, dtype=float).copy() for w in owner.W]
+                p2 = np.asarray(est.predict(Q))
+            if not all(np.array_equal(a, b, equal_nan=True) for a, b in zip(W0, W1)):
+                drift = max(float(np.max(np.abs(a - b))) for a, b in zip(W0, W1))
+                ctx.issue("violation", f"{host}(BayesianART).predict:mutates-weights", f"stored weights changed during predict (max drift {drift:.3e})", rep)
+            elif not np.array_equal(p1, p2):
+                ctx.issue("violation", f"{host}(BayesianART).predict:not-repeatable", "second identical call differs", rep)
+            elif len(set(p1[4:].tolist())) != 1:
+                ctx.issue("violation", f"{host}(BayesianART).predict:identical-rows-differ", f"labels {p1[4:].tolist()} for six copies of one row", rep)
+            cov.hit("tiny-covariance-predict")
+            cov.case(("tinycov", spec, rep["X"]), len(owner.W) >= 2)
+        except Exception as e:
+            cov.hit(f"tiny-covariance:raised:{exc_enum(e)}")
